@@ -303,6 +303,60 @@ pub fn ls_check(id: &str) -> Option<LsCheck> {
             assumptions: &["one client thread; concurrent clients: stress engine"],
             scenarios: vec![(1000, clear_reuse_scenario), (3, big_buffer_clear_scenario)],
         },
+        "C13" => LsCheck {
+            id: "C13",
+            profile: Profile {
+                name: "estimator-in-the-cache",
+                cap: Cap::Mixed,
+                ttl_pct: 10,
+                metrics: Some(true),
+                num_counters: vec![2, 3, 5, 8, 16, 64],
+                async_pct: 35,
+                w: w(|w| {
+                    w.get = 45;
+                    w.getwide = 5;
+                    w.getmut = 8;
+                    w.policy = 9;
+                    w.insert = 14;
+                    w.clear = 1;
+                }),
+                len: (10, 90),
+                ..d
+            },
+            quick: 12_000,
+            thorough: 200_000,
+            rule: "lock-step cases with a parked policy worker (sync and async): lookups go through the real ring buffer and worker into the cache's own estimator; every key's estimate covers what was recorded since the last aging reset and the aging window advances by one per recorded access; non-trivial = an aging reset happened or a batch contained a missed key; distinct by case hash",
+            nontrivial: |f| f.window_resets > 0 || f.batches_with_miss > 0,
+            assumptions: &["sync: a batch is dropped iff 3 batches are already queued; async: never while open"],
+            scenarios: vec![],
+        },
+        "C14" => LsCheck {
+            id: "C14",
+            profile: Profile {
+                name: "doorkeeper-in-the-cache",
+                cap: Cap::Mixed,
+                ttl_pct: 10,
+                metrics: Some(true),
+                num_counters: vec![2, 3, 5, 8, 16, 64],
+                async_pct: 35,
+                w: w(|w| {
+                    w.get = 45;
+                    w.getwide = 5;
+                    w.getmut = 8;
+                    w.policy = 9;
+                    w.insert = 14;
+                    w.clear = 1;
+                }),
+                len: (10, 90),
+                ..d
+            },
+            quick: 12_000,
+            thorough: 200_000,
+            rule: "lock-step cases with a parked policy worker (sync and async): after every applied batch, every index recorded in the current window is reported by the cache's doorkeeper, and of 40 never-recorded hashes fewer than 10 are; non-trivial = an aging reset happened or a batch contained a missed key; distinct by case hash",
+            nontrivial: |f| f.window_resets > 0 || f.batches_with_miss > 0,
+            assumptions: &["sync: a batch is dropped iff 3 batches are already queued; async: never while open"],
+            scenarios: vec![],
+        },
         "C15" => LsCheck {
             id: "C15",
             profile: Profile {
@@ -848,6 +902,7 @@ pub fn stress_parts(id: &str) -> Vec<StressPart> {
         "C05" => vec![p(Kind::Reclaim, 96, 2000, 50)],
         "C09" => vec![p(Kind::Validated, 480, 8000, 25)],
         "C15" => vec![p(Kind::Lookups, 480, 8000, 35)],
+        "C13" => vec![p(Kind::Lookups, 320, 6000, 35)],
         "C10" => vec![p(Kind::Barrier, 640, 12000, 25), p(Kind::WaitRace, 640, 12000, 25)],
         "C12" => vec![p(Kind::Close, 960, 16000, 30)],
         "C20" => vec![p(Kind::Config, 960, 16000, 30)],
@@ -1016,6 +1071,10 @@ pub fn stress_rule(id: &str) -> (&'static str, &'static [&'static str]) {
         "C19" => (
             "async flavour on four executors (tokio multi-thread, tokio current-thread, async-std, thread-per-task) through the same stress kinds as the sync cache (invariants, wait barrier/termination, close, configurations), plus the lock-step differential: the same case and schedule on parked Cache and AsyncCache must produce identical observations step by step",
             &["executors present in the cargo cache only"],
+        ),
+        "C13" | "C15" => (
+            "stress part (lookups): 2-6 reader threads over 40 keys (few lookups each, far below the aging window) while 1-2 threads keep the policy lock busy (admission decisions, update_max_cost) against a cache with real workers; at quiescence hits + misses == lookups, kept + dropped == b*floor(lookups/b), and - if nothing was dropped - every key's estimate falls short of its recorded lookups by at most the b-1 still in the ring",
+            &["the OS schedule is sampled, not enumerated"],
         ),
         _ => (
             "stress part: 2-6 real client threads with generated scripts on shared keys against a cache with real workers (tight capacity, TTLs under a global virtual clock, 5ms real ticker); inline: a lookup returns only a value written under that key and not yet handed to a callback before the lookup began; at quiescence: charged total == sum of charges, resident keys == charged keys (if no call returned Err), callback conservation, metrics conservation",
